@@ -394,9 +394,12 @@ class Runner:
             sc = " ".join(sc)
         return ["introspect", bool(ra["active"]), sorted(sc.split(" ")) if sc else []]
 
-    def op_revokeEp(self, client, tok, claim=None):
+    def op_revokeEp(self, client, tok, claim=None, hint=None):
+        """hint: a token_type_hint (RFC 7009: a hint only — a wrong one must not keep the token alive)"""
         ep = self.s.get_endpoint("token_revocation")
         body, hi = self._cred(client, claim)
+        if hint:
+            body = dict(body, token_type_hint=hint)
         pr = ep.parse_request(dict(body, token=self.tv(tok)), http_info=hi)
         if "error" in pr:
             return ["err", pr["error"]]
@@ -722,7 +725,9 @@ def gen_adaptive(rng, nops, oidc=True, jwt=False, weights=None, runner=None, on_
         elif k == "revokeEp" and anytok:
             t = rng.choice(anytok)
             c = tokclient[t] if rng.random() < 0.85 else rng.choice(CLIENTS)
-            do(["revokeEp", c, t] + ([tokclient[t]] if c != tokclient[t] and rng.random() < 0.6 else []))
+            claim = tokclient[t] if c != tokclient[t] and rng.random() < 0.6 else None
+            hint = rng.choice([None, None, "access_token", "refresh_token", "authorization_code", "bogus"])
+            do(["revokeEp", c, t] + ([claim, hint] if hint else [claim] if claim else []))
         elif k == "revokeTok" and anytok:
             do(["revokeTok", rng.choice(anytok), rng.random() < 0.6])
         elif k == "revokeGrant":
